@@ -239,14 +239,24 @@ def run(tier, **kw):
         nt |= r["nontrivial"]
         for case, msg, group in r["violations"]:
             rep.violation(case, msg, group=group)
+    from mcx.enumr import shard
+    env_n = 0
+    for r in pmap(_env_work, shard(list(env_cases(tier)), 32)):
+        rep.add("evaluations", r["evaluations"])
+        env_n += r["nontrivial"]
+        for case, msg, group in r["violations"]:
+            rep.violation(case, msg, group=group)
+    rep.set("environment_level_episodes", env_n)
     rep.set("start_states", nstates)
-    rep.set("distinct_nontrivial", len(nt))
+    rep.set("distinct_nontrivial", len(nt) + env_n)
     rep.set("fault_kinds", FAULTS[1:])
     rep.set("exhaustive", True)
     rep.set("rule", "one evaluation = one probe (valuation | weights | rebalance to one of 8 targets over the 2 traded contracts and a never-quoted third) "
                     "after injecting one of the 24 non-trivial fault assignments {none, bid NaN, ask NaN, both NaN, discontinued then re-quoted}^2 into a copy "
                     "of a reachable broker state; enumerated over every state of the ledger BFS within the depth bound; non-trivial = distinct probe in which "
-                    "an error is required (a non-zero position lost its liquidation side, or a required trade lost its execution side) or was raised")
+                    "an error is required (a non-zero position lost its liquidation side, or a required trade lost its execution side) or was raised; "
+                    "plus environment-level episodes in which the same faults arrive as events at bar k for a held long/short spot or margined position "
+                    "(3 targets x 2 contracts x 4 fault kinds x follow-up policy x latency): TradingEnv.step must raise, not return a reward")
     rep.set("samples", [{"universe": "spot1+fut", "history": [["t", 1, -2.0]], "faults": ["none", "ask"], "probe": "valuation",
                          "expect": "short F with no ask: valuation must raise"}])
     rep.assumptions = ["'unchanged' after a failed rebalance = contract positions, track-record length and cash+margins (equal to its value before the call or "
@@ -256,6 +266,9 @@ def run(tier, **kw):
 
 
 def replay(case, **kw):
+    if case.get("part") == "env":
+        c = case["case"]
+        return run_env_case((tuple(c[0]),) + tuple(c[1:]))
     reset_clock()
     universe, fee = case["universe"], tuple(case["fee"])
     quotes = [tuple(q) for q in case["quotes"]]
@@ -276,3 +289,124 @@ def probe():
     ref, _ = ledger.apply_op(b, ref, cs, ("t", 1, -2.0), q, (0.0, 0.0))
     res = probe_state(snap(b), ref, cs, (0.0, 0.0), ("none", "ask"))
     return repr([(p, m) for p, m, _ in res])
+
+
+# ---------------------------------------------------------------------------
+# environment level: the same faults arriving as events in the middle of an episode
+
+def env_cases(tier):
+    import itertools as it
+    targets = [(0.5, 0.25), (-0.5, 0.25), (0.5, -0.25)]
+    after = ["hold", "exit", "other"]
+    for tgt in targets:
+        for ci in (0, 1):
+            for kind in FAULTS[1:]:
+                for k in ((2,) if tier == "quick" else (1, 2, 3)):
+                    for a in after:
+                        for latency in (0, 30):
+                            yield (tgt, ci, kind, k, a, latency)
+
+
+def run_env_case(case):
+    """5-bar episode on [spot A, margined F]; from bar k on, contract ci's quotes carry the fault
+    (or it is discontinued at bar k).  Returns messages."""
+    from mcx import envh
+    from tradingenv.env import TradingEnv
+    from tradingenv.transmitter import Transmitter
+    from tradingenv.spaces import BoxPortfolio
+    tgt, ci, kind, k, after, latency = case
+    reset_clock()
+    A_ = spot("A", 1.0)
+    F_ = fut("F", 2.0, 0.25)
+    cs = [A_, F_]
+    base = datetime(2020, 1, 6, 10, 0, 0)
+    G = [base + timedelta(minutes=i) for i in range(5)]
+    evs = []
+    for i, g in enumerate(G):
+        for j, c in enumerate(cs):
+            bid, ask = 64.0 + 4 * i + 32 * j, 66.0 + 4 * i + 32 * j
+            if j == ci and i >= k:
+                if kind == "dead":
+                    if i == k:
+                        evs.append(EventContractDiscontinued(g, c))
+                    continue
+                if kind in ("bid", "both"):
+                    bid = NAN
+                if kind in ("ask", "both"):
+                    ask = NAN
+            evs.append(EventNBBO(g, c, bid, ask))
+    tr = Transmitter(list(G))
+    tr.add_events(evs)
+    env = TradingEnv(BoxPortfolio(cs, -1.0, 1.0), transmitter=tr, initial_cash=65536.0, latency=latency)
+    env.reset()
+    msgs = []
+    faulted = cs[ci]
+    for step in range(1, 5):
+        if step == 1:
+            action = np.array(tgt)
+        elif after == "hold":
+            action = np.array(tgt)
+        elif after == "exit":
+            action = np.array([0.0 if j == ci else tgt[j] for j in range(2)])
+        else:
+            action = np.array([tgt[j] if j == ci else tgt[j] / 2 for j in range(2)])
+        b = env.broker
+        q = b._holdings_quantity.get(faulted, 0.0)
+        book = env.exchange[faulted]
+        pre_pos = positions(b)
+        pre_len = len(b.track_record)
+        # state of the faulted book at decision time (events of the previous bar have been processed)
+        liq_gone = (q > 0 and not has(book.bid_price)) or (q < 0 and not has(book.ask_price))
+        any_gone = not (has(book.bid_price) and has(book.ask_price))
+        try:
+            o, r, d, info = env.step(action)
+            raised = None
+        except Exception as ex:
+            raised = ex
+        if liq_gone:
+            if raised is None:
+                msgs.append("step %d returned (reward %r) although the %s position in %s has no liquidation quote"
+                            % (step, r, "long" if q > 0 else "short", faulted.symbol))
+            if positions(b) != pre_pos or len(b.track_record) != pre_len:
+                msgs.append("step %d failed on a missing quote but positions/track record changed: %r -> %r" % (step, pre_pos, positions(b)))
+            break
+        if raised is not None:
+            # allowed when the fault is present in any form at decision time, or arrives during this very step
+            arrives_now = step >= k
+            if not (any_gone or arrives_now):
+                msgs.append("step %d raised %r although every quote is present" % (step, raised))
+            if isinstance(raised, EndOfEpisodeError):
+                pass
+            break
+        q2 = b._holdings_quantity.get(faulted, 0.0)
+        if (q2 > 0 and not has(book.bid_price)) or (q2 < 0 and not has(book.ask_price)):
+            # the fault arrived during this step, after the execution: the reward is a valuation and cannot exist
+            msgs.append("step %d returned reward %r although at the end of the step the %s position in %s has no liquidation quote"
+                        % (step, r, "long" if q2 > 0 else "short", faulted.symbol))
+            break
+        if not (r == r):
+            msgs.append("step %d returned a NaN reward" % step)
+        try:
+            v = b.net_liquidation_value(False)
+            if not (v == v):
+                msgs.append("NLV is NaN after step %d" % step)
+        except Exception:
+            pass
+        if d:
+            break
+    return msgs
+
+
+def _env_work(chunk):
+    out = {"evaluations": 0, "violations": [], "nontrivial": 0}
+    for case in chunk:
+        try:
+            msgs = run_env_case(case)
+        except Exception as ex:
+            msgs = ["harness raised %r" % (ex,)]
+        out["evaluations"] += 1
+        out["nontrivial"] += 1
+        if msgs:
+            out["violations"].append(({"part": "env", "case": [list(case[0])] + list(case[1:])}, "environment level %s: %s" % (case, "; ".join(msgs[:2])),
+                                      ("env", msgs[0].split(" ")[2] if len(msgs[0].split(" ")) > 2 else "", case[2])))
+    return out
